@@ -24,6 +24,36 @@ namespace PV.C30
 
 abbrev Str := List Char
 
+/-! ### settings
+
+Every exported field of `csv.Reader` / `csv.Writer` that changes what is read or written is a
+parameter of the model.  `codeReader` / `codeWriter` are the values the code uses (no assignment after
+`csv.NewReader` except `FieldsPerRecord = -1`; none after `csv.NewWriter`); the fact extractor
+`harness/extract/csvsettings` regenerates `Gen.lean` from ctl/import.go and api.go and `C30_settings`
+proves that the extracted settings ARE these.  The machine below implements `comma` and `comment`
+for any value; `lazyQuotes = true`, `trimLeadingSpace = true` and `fieldsPerRecord ≠ -1` are not
+implemented and yield the explicit outcome `CsvErr.unsupportedSettings`. -/
+
+structure ReaderCfg where
+  comma : Char := ','             -- Reader.Comma
+  comment : Option Char := none   -- Reader.Comment (0 = none): lines starting with it are skipped
+  lazyQuotes : Bool := false      -- Reader.LazyQuotes
+  trimLeadingSpace : Bool := false -- Reader.TrimLeadingSpace
+  fieldsPerRecord : Int := -1     -- Reader.FieldsPerRecord (negative = no check)
+deriving DecidableEq, Repr
+
+structure WriterCfg where
+  comma : Char := ','             -- Writer.Comma
+  useCRLF : Bool := false         -- Writer.UseCRLF
+deriving DecidableEq, Repr
+
+/-- `ImportCommand.bufferBits`: `r = csv.NewReader(f); r.FieldsPerRecord = -1`. -/
+def codeReader : ReaderCfg := { comma := ',', comment := none, lazyQuotes := false,
+                                trimLeadingSpace := false, fieldsPerRecord := -1 }
+
+/-- `API.ExportCSV`: `cw := csv.NewWriter(w)`. -/
+def codeWriter : WriterCfg := { comma := ',', useCRLF := false }
+
 /-! ### writer -/
 
 /-- `unicode.IsSpace`. -/
@@ -33,14 +63,46 @@ def isSpace (c : Char) : Bool :=
   n = 0x1680 || (0x2000 ≤ n && n ≤ 0x200A) || n = 0x2028 || n = 0x2029 || n = 0x202F ||
   n = 0x205F || n = 0x3000
 
+def isSpecialC (comma : Char) (c : Char) : Bool := c = comma || c = '"' || c = '\r' || c = '\n'
+
+/-- `Writer.fieldNeedsQuotes`. -/
+def needsQuotesW (w : WriterCfg) : Str → Bool
+  | [] => false
+  | c :: cs => (c :: cs) = ['\\', '.'] || (c :: cs).any (isSpecialC w.comma) || isSpace c
+
+/-- The loop of `Writer.Write` over a quoted field: `"` doubled; with UseCRLF a CR is dropped and LF
+becomes CR LF. -/
+def escapeW (w : WriterCfg) : Str → Str
+  | [] => []
+  | c :: cs =>
+    if c = '"' then '"' :: '"' :: escapeW w cs
+    else if w.useCRLF && c = '\r' then escapeW w cs
+    else if w.useCRLF && c = '\n' then '\r' :: '\n' :: escapeW w cs
+    else c :: escapeW w cs
+
+def writeFieldW (w : WriterCfg) (f : Str) : Str :=
+  if needsQuotesW w f then '"' :: (escapeW w f ++ ['"']) else f
+
+def lineEnd (w : WriterCfg) : Str := if w.useCRLF then ['\r', '\n'] else ['\n']
+
+/-- One `Writer.Write(record)`: fields joined by Comma, terminated by LF (CR LF with UseCRLF). -/
+def writeRecordW (w : WriterCfg) : List Str → Str
+  | [] => lineEnd w
+  | [f] => writeFieldW w f ++ lineEnd w
+  | f :: g :: fs => writeFieldW w f ++ w.comma :: writeRecordW w (g :: fs)
+
+def writeAllW (w : WriterCfg) : List (List Str) → Str
+  | [] => []
+  | r :: rs => writeRecordW w r ++ writeAllW w rs
+
+/-! The writer with the settings of the code (`codeWriter`), written out. -/
+
 def isSpecial (c : Char) : Bool := c = ',' || c = '"' || c = '\r' || c = '\n'
 
-/-- `Writer.fieldNeedsQuotes` for Comma = ','. -/
 def needsQuotes : Str → Bool
   | [] => false
   | c :: cs => (c :: cs) = ['\\', '.'] || (c :: cs).any isSpecial || isSpace c
 
-/-- The loop of `Writer.Write` over a quoted field (UseCRLF = false). -/
 def escape : Str → Str
   | [] => []
   | c :: cs => if c = '"' then '"' :: '"' :: escape cs else c :: escape cs
@@ -48,7 +110,6 @@ def escape : Str → Str
 def writeField (f : Str) : Str :=
   if needsQuotes f then '"' :: (escape f ++ ['"']) else f
 
-/-- One `Writer.Write(record)`: fields joined by `,`, terminated by LF. -/
 def writeRecord : List Str → Str
   | [] => ['\n']
   | [f] => writeField f ++ ['\n']
@@ -63,6 +124,7 @@ def writeAll : List (List Str) → Str
 inductive CsvErr where
   | bareQuote   -- ErrBareQuote: `"` in an unquoted field
   | quote       -- ErrQuote: stray or unterminated `"` in a quoted field
+  | unsupportedSettings  -- reader settings this model does not implement (not the code's)
 deriving DecidableEq, Repr
 
 inductive Mode where
@@ -126,6 +188,62 @@ def run : Mode → Acc → Str → Parsed
 
 /-- `csv.Reader.ReadAll`-like: every record up to the first error. -/
 def parse (s : Str) : Parsed := run .recStart ⟨[], [], []⟩ s
+
+/-! ### the reader for arbitrary `comma` / `comment` settings
+
+Same machine with one more mode: inside a comment line.  `readRecord` tests
+`r.Comment != 0 && nextRune(line) == r.Comment` on every line it reads while looking for the start
+of a record (never on the continuation lines of a quoted field). -/
+
+inductive ModeG where
+  | recStart | fieldStart | unq | quo | qq | cmt
+deriving DecidableEq, Repr
+
+def stepUnqG (cfg : ReaderCfg) (a : Acc) (c : Char) : Except CsvErr (ModeG × Acc) :=
+  if c = cfg.comma then .ok (.fieldStart, a.endField)
+  else if c = '\n' then .ok (.recStart, a.endRecord)
+  else if c = '"' then .error .bareQuote
+  else .ok (.unq, a.push c)
+
+def stepStartG (cfg : ReaderCfg) (a : Acc) (c : Char) : Except CsvErr (ModeG × Acc) :=
+  if c = '"' then .ok (.quo, a) else stepUnqG cfg a c
+
+def stepG (cfg : ReaderCfg) : ModeG → Acc → Char → Except CsvErr (ModeG × Acc)
+  | .recStart, a, c =>
+    if cfg.comment = some c then .ok (.cmt, a)          -- comment line: skipped up to its LF
+    else if c = '\n' then .ok (.recStart, a)
+    else stepStartG cfg a c
+  | .cmt, a, c => if c = '\n' then .ok (.recStart, a) else .ok (.cmt, a)
+  | .fieldStart, a, c => stepStartG cfg a c
+  | .unq, a, c => stepUnqG cfg a c
+  | .quo, a, c => if c = '"' then .ok (.qq, a) else .ok (.quo, a.push c)
+  | .qq, a, c =>
+    if c = '"' then .ok (.quo, a.push '"')
+    else if c = cfg.comma then .ok (.fieldStart, a.endField)
+    else if c = '\n' then .ok (.recStart, a.endRecord)
+    else .error .quote
+
+def eofG : ModeG → Acc → Parsed
+  | .recStart, a => ⟨a.recs.reverse, none⟩
+  | .cmt, a => ⟨a.recs.reverse, none⟩
+  | .fieldStart, a => ⟨a.endRecord.recs.reverse, none⟩
+  | .unq, a => ⟨a.endRecord.recs.reverse, none⟩
+  | .quo, a => ⟨a.recs.reverse, some .quote⟩
+  | .qq, a => ⟨a.endRecord.recs.reverse, none⟩
+
+def runG (cfg : ReaderCfg) : ModeG → Acc → Str → Parsed
+  | m, a, [] => eofG m a
+  | m, a, c :: rest =>
+    if c = '\r' ∧ rest = [] then eofG m a
+    else if c = '\r' ∧ rest.head? = some '\n' then runG cfg m a rest
+    else match stepG cfg m a c with
+      | .error e => ⟨a.recs.reverse, some e⟩
+      | .ok (m', a') => runG cfg m' a' rest
+
+/-- `csv.Reader` with the given settings over a whole input. -/
+def parseG (cfg : ReaderCfg) (s : Str) : Parsed :=
+  if cfg.lazyQuotes || cfg.trimLeadingSpace || cfg.fieldsPerRecord ≥ 0 then ⟨[], some .unsupportedSettings⟩
+  else runG cfg .recStart ⟨[], [], []⟩ s
 
 /-- No CR directly followed by LF. -/
 def noCRLF : Str → Bool
